@@ -105,7 +105,30 @@ def r12_1(run):
                 chain.append((const(e.args[0]), const(e.args[1])))
                 e = receiver(e)
             chain.reverse()
-            if isinstance(e, ast.Call) and dotted(e.func) == 're.sub' and len(e.args) == 3:
+            if isinstance(e, ast.Call) and callee_attr(e) == 'translate' and len(e.args) == 1 and dotted(receiver(e)) == p:
+                # one pass over a translation table: the table maps exactly backslash -> two backslashes and '"' -> backslash quote
+                tbl = e.args[0]
+                tv = None
+                if isinstance(tbl, ast.Name):
+                    for st_ in q.module.tree.body:
+                        if isinstance(st_, ast.Assign) and any(isinstance(t_, ast.Name) and t_.id == tbl.id for t_ in st_.targets):
+                            tv = st_.value
+                else:
+                    tv = tbl
+                if isinstance(tv, ast.Call) and dotted(tv.func) == 'str.maketrans' and len(tv.args) == 1:
+                    tv = tv.args[0]
+                m_ = {}
+                if isinstance(tv, ast.Dict):
+                    for k_, v_ in zip(tv.keys, tv.values):
+                        kk = const(k_)
+                        if isinstance(k_, ast.Call) and dotted(k_.func) == 'ord' and k_.args:
+                            kk = const(k_.args[0])
+                        elif isinstance(kk, int):
+                            kk = chr(kk)
+                        m_[kk] = const(v_)
+                ok = m_ == {'\\': '\\\\', '"': '\\"'}
+                why = 'translate(%s)' % (sorted(m_.items()) if m_ else src(tbl))
+            elif isinstance(e, ast.Call) and dotted(e.func) == 're.sub' and len(e.args) == 3:
                 pat, rep = const(e.args[0]), const(e.args[1])
                 ok = isinstance(pat, str) and '\\\\' in pat and '"' in pat and isinstance(rep, str) and rep.startswith('\\\\') and dotted(e.args[2]) == p
                 why = 're.sub(%r, %r)' % (pat, rep)
@@ -121,6 +144,9 @@ def r12_1(run):
     vq = [n for n in walk_unit(sc) if isinstance(n, ast.ListComp) and isinstance(n.elt, ast.Call) and dotted(n.elt.func) == q.name]
     def _values_iter(it):
         # the values list by name, or the odd positions of the argument list taken in place (X[1::2])
+        if isinstance(it, ast.ListComp) and len(it.generators) == 1 and isinstance(it.generators[0].iter, ast.Call) and dotted(it.generators[0].iter.func) == 'range' \
+                and len(it.generators[0].iter.args) == 3 and const(it.generators[0].iter.args[0]) == 1 and const(it.generators[0].iter.args[2]) == 2:
+            return True         # the odd positions taken in place: [X[i] for i in range(1, len(X), 2)]
         return isinstance(it, ast.Name) or (isinstance(it, ast.Subscript) and isinstance(it.slice, ast.Slice) and const(it.slice.lower) == 1 and it.slice.upper is None
                                             and const(it.slice.step) == 2)
     ok = len(vq) == 1 and _values_iter(vq[0].generators[0].iter)
@@ -218,6 +244,9 @@ def r12_3(run):
                     ranges[name] = (const(it.args[0]), const(it.args[2]), src(d[1].elt))
                 if isinstance(it, ast.Subscript) and isinstance(it.slice, ast.Slice) and it.slice.upper is None and const(it.slice.step) == 2:
                     ranges[name] = (0 if it.slice.lower is None else const(it.slice.lower), 2, src(it.value))
+                if isinstance(it, ast.ListComp) and len(it.generators) == 1 and isinstance(it.generators[0].iter, ast.Call) and dotted(it.generators[0].iter.func) == 'range' \
+                        and len(it.generators[0].iter.args) == 3:
+                    ranges[name] = (const(it.generators[0].iter.args[0]), const(it.generators[0].iter.args[2]), src(it.elt))
             # the same as an extended slice: X[0::2] / X[::2] and X[1::2]
             if d[0] == 'expr' and isinstance(d[1], ast.Subscript) and isinstance(d[1].slice, ast.Slice) and d[1].slice.upper is None and const(d[1].slice.step) == 2:
                 lo = 0 if d[1].slice.lower is None else const(d[1].slice.lower)
